@@ -984,3 +984,78 @@ def d14_flat_map_option(f, elem_ty, captures, fname='verif_flat_map_0', call_pre
     params = ''.join(', %s: %s' % (c[0], c[1]) for c in captures)
     f.log.rule('D14', f, 'flat_map(closure -> Option<Vec<%s>>).flatten().collect() -> accumulator loop, closure body lifted verbatim into %s' % (elem_ty, fname))
     return 'fn %s(%s: &%s%s) -> Option<Vec<%s>> %s' % (fname, var, '%s', params, elem_ty, body)
+
+
+def d4_filter_count(f):
+    """D4: `RECV.iter().filter(|p| COND).count()` -> counting loop (COND verbatim)."""
+    t = f.text
+    mask = code_mask(t)
+    m = None
+    for x in re.finditer(r'\.filter\(\|(\w+)\|\s*', t):
+        if mask[x.start()]:
+            m = x
+            break
+    if m is None:
+        f._lost('D4 .filter(|p| ..).count()')
+    po = t.index('(', m.start())
+    pc = _match_paren(t, mask, po)
+    tail = re.match(r'\s*\.count\(\)', t[pc + 1:])
+    if not tail:
+        f._lost('D4: .count() expected after filter')
+    cond = t[m.end():pc].strip()
+    lets = [x for x in re.finditer(r'let (\w+)(\s*:\s*[^=;]+?)?\s*=\s*', t[:m.start()])]
+    L = lets[-1]
+    recv = re.sub(r'\s+', '', t[L.end():m.start()])
+    if not recv.endswith('.iter()'):
+        f._lost('D4: receiver not understood')
+    semi = t.index(';', pc + 1 + tail.end())
+    ind = re.search(r'[ \t]*$', t[:L.start()]).group(0)
+    new = ('let mut verif_count: usize = 0;\n%sfor %s in %s {\n%s    if %s {\n%s        verif_count += 1;\n%s    }\n%s}\n%slet %s = verif_count;'
+           % (ind, m.group(1), recv, ind, cond, ind, ind, ind, ind, L.group(1)))
+    f.text = t[:L.start()] + new + t[semi + 1:]
+    f.log.rule('D4', f, 'iter().filter(closure).count() -> counting loop')
+    return f
+
+
+def d5_map_sum(f, ty='usize'):
+    """D5: `RECV.iter().map(|p| EXPR).sum()` -> `{ let mut verif_sum: T = 0; for p in RECV.iter() { verif_sum += EXPR; } verif_sum }`
+    (EXPR verbatim; Sum for integers adds in order and panics on overflow exactly like `+=` in a debug build)."""
+    t = f.text
+    mask = code_mask(t)
+    m = None
+    for x in re.finditer(r'\.map\(\|(\w+)\|\s*', t):
+        if mask[x.start()]:
+            m = x
+            break
+    if m is None:
+        f._lost('D5 .map(|p| ..).sum()')
+    po = t.index('(', m.start())
+    pc = _match_paren(t, mask, po)
+    tail = re.match(r'\s*\.sum\(\)', t[pc + 1:])
+    if not tail:
+        f._lost('D5: .sum() expected after map')
+    expr = t[m.end():pc].strip()
+    # receiver: scan backwards over a postfix chain (identifiers, dots, calls, whitespace)
+    k = m.start()
+    depth = 0
+    while k > 0:
+        c = t[k - 1]
+        if c in ')]':
+            depth += 1
+        elif c in '([':
+            if depth == 0:
+                break
+            depth -= 1
+        elif depth == 0 and not (c.isalnum() or c in '_.' or c.isspace()):
+            break
+        k -= 1
+    recv = re.sub(r'\s+', '', t[k:m.start()])
+    lead = re.match(r'\s*', t[k:m.start()]).group(0)
+    if not recv.endswith('.iter()'):
+        f._lost('D5: receiver not understood')
+    ind = lead.split('\n')[-1]
+    new = ('%s{\n%s    let mut verif_sum: %s = 0;\n%s    for %s in %s {\n%s        verif_sum += %s;\n%s    }\n%s    verif_sum\n%s}'
+           % (lead, ind, ty, ind, m.group(1), recv, ind, expr, ind, ind, ind))
+    f.text = t[:k] + new + t[pc + 1 + tail.end():]
+    f.log.rule('D5', f, 'iter().map(closure).sum() -> summing loop')
+    return f
